@@ -41,6 +41,8 @@ var utInfos = []utInfo{
 	{ifs: []int{0, 2}, runner: true}, // 31: the fourth twin (an application runner)
 	{ifs: []int{0}},                  // 32: the holder with real `func:"…"` struct tags (FQ, FS)
 	{ifs: []int{0, 1}},               // 33: the holder with an embedded `*T0` that carries a real wire tag
+	{ifs: []int{0, 1, 2}},            // 34: … an embedded `*T1` wired BY NAME (eptarget), required
+	{ifs: []int{0}, pp: true},        // 35: ordered (20) user post-processor with slots
 }
 
 var namePool = []string{"a", "b", "c", "d", "e", "f", "ga", "gz", "h", "k", "la", "lz", "m", "n", "p", "q", "s", "t", "u", "w", "x", "y", "za", "zz"}
@@ -1141,6 +1143,12 @@ func genMarkerOnly(r *hx.Rng) *gScen {
 		g.sc.nodes[p].slots["A0"] = "w" + g.nameOf(r.Intn(np))
 	}
 	g.sc.nodes[p].cfg = []int{0, 1, 8, 9}[r.Intn(4)]
+	if r.P(1, 2) { // an ordered one between the built-ins and the harness's own: wired and configured like any component
+		q := g.addNode(35, r.P(1, 2))
+		g.sc.nodes[q].slots["X0"] = "w"
+		g.sc.nodes[q].slots["S0"] = "w" + []string{"", ",required=false"}[r.Intn(2)]
+		g.sc.nodes[q].cfg = []int{0, 1, 8}[r.Intn(3)]
+	}
 	switch r.Intn(4) {
 	case 0:
 		g.addNode(14, r.P(1, 2)) // next to a priority-ORDERED one
@@ -1408,6 +1416,14 @@ func genEmbeddedPointer(r *hx.Rng) *gScen {
 	h := g.addNode(33, r.P(1, 2))
 	if r.P(1, 2) {
 		g.sc.nodes[h].slots["X0"] = "w" + []string{"", ",required=false"}[r.Intn(2)]
+	}
+	if r.P(1, 2) { // the by-name twin: its target is there under the name, under another name, or of another type
+		t := g.addNode([]int{1, 1, 2}[r.Intn(3)], false)
+		if r.P(3, 4) {
+			g.used[g.sc.nodes[t].cust] = false
+			g.sc.nodes[t].cust = "eptarget"
+		}
+		g.addNode(34, r.P(1, 2))
 	}
 	if r.P(1, 3) {
 		k := g.addNode(g.randType(func(u utInfo) bool { return !u.pp }), r.P(1, 2))
